@@ -30,7 +30,7 @@ FrameEquals(a, b, opts) ==
 (* an index on its own (flat: plain labels; hierarchical: <<"t", <<l1, .., ld>>>> labels, dt = one dtype per depth);  *)
 (* how the index was built (from labels, a product, shared or separate level objects, a copy ...) is not content       *)
 IndexItemEquals(a, b, opts) ==
-  /\ (opts.class => a.cls = b.cls)
+  /\ (opts.class => a.cls = b.cls /\ a.lcls = b.lcls)              \* lcls: the class of the Index at every depth of a hierarchy (<<>> for a flat index)
   /\ (opts.name => a.name = b.name)
   /\ (opts.dtype => a.dt = b.dt)
   /\ IndexEquals(a.index, b.index, opts)
